@@ -158,6 +158,15 @@ def refStep (r : IRef) (t0 : List String) (obs : String) : IRef × String :=
               else if istate ≠ ar.state && ar.state ≠ "" then ("FAIL C01 forged datagram altered the handshake state", ar1)
               else ("ok", ar1)
             | some gm =>
+              -- C02: a handshake reply carries the sender's payload (node information) in the clear only if BOTH ends enabled 'plain'
+              let partnerPlain := (((lookupS r.atts gm.sender).bind (fun a => lookupS r.parties a.party)).map (·.algos.allowUnencrypted)).getD false
+              let clearLeak : Bool := match emitted with
+                | some (255 :: body) =>
+                  match InitMsg.readFields ((body.drop 8).length + 1) (body.drop 8) {} with
+                  | .ok (f, _) => f.payload = some ar.payload && !ar.payload.isEmpty && !(p.algos.allowUnencrypted && partnerPlain)
+                  | .error _ => false
+                | _ => false
+              if clearLeak then ("FAIL C02 a handshake reply carries the payload unsealed although not both ends enabled plain", ar1) else
               if ires.startsWith "init " || ires.startsWith "initnr" then
                 -- C05 / C06 at completion
                 let partnerParty := (lookupS r.atts gm.sender).bind (fun a => lookupS r.parties a.party)
